@@ -632,6 +632,10 @@ func (e *engine) eval() error {
 			for i, baseTerm := range internalPremise.Args {
 				if v, ok := baseTerm.(ast.Variable); ok {
 					if c, ok := fact.Args[i].(ast.Constant); ok {
+						if prev, ok := subst.Get(v).(ast.Constant); ok && v.Symbol != "_" && !prev.Equals(c) {
+							// A repeated variable, as in p(X,X), must match equal constants.
+							return nil
+						}
 						subst = subst.Extend(v, c)
 					}
 				}
